@@ -238,6 +238,44 @@ pub fn self_instance<T: CircuitField + Ord + ff::FromUniformBytes<64>>(mp: &Mock
     out
 }
 
+/// For every row of the plain instance column: the advice (or fixed) cell it is copy-constrained to.
+pub fn exposed_cells<T: CircuitField + Ord + ff::FromUniformBytes<64>>(mp: &MockProver<T>) -> Vec<(String, usize, usize)> {
+    use rayon::iter::ParallelIterator;
+    let cols = mp.permutation().columns().to_vec();
+    let maps: Vec<Vec<(usize, usize)>> = mp.permutation().mapping().map(|c| c.collect()).collect();
+    let Some(ci) = cols.iter().position(|c| matches!(c.column_type(), Any::Instance) && c.index() == 1) else {
+        return vec![];
+    };
+    let mut out = vec![];
+    for r in 0..maps[ci].len() {
+        let (mut c, mut rr) = maps[ci][r];
+        if (c, rr) == (ci, r) {
+            break;
+        }
+        for _ in 0..10000 {
+            match cols[c].column_type() {
+                Any::Advice(_) => {
+                    out.push(("advice".to_string(), cols[c].index(), rr));
+                    break;
+                }
+                Any::Fixed => {
+                    out.push(("fixed".to_string(), cols[c].index(), rr));
+                    break;
+                }
+                Any::Instance => {
+                    let n = maps[c][rr];
+                    if n == (ci, r) {
+                        break;
+                    }
+                    c = n.0;
+                    rr = n.1;
+                }
+            }
+        }
+    }
+    out
+}
+
 struct RunOut {
     status: String, // sat | unsat | synth_err | panic
     exposed: Vec<u64>,
@@ -319,11 +357,21 @@ fn extract_case<T: CircuitField + Ord + ff::FromUniformBytes<64>>(sc: &J, pmod: 
         let cs = extract::cs_json(&mp, &mut big);
         let (fixed, advice, inst) = extract::tables_json(&mp, &mut big);
         let nexposed = self_instance(&mp).len();
+        // absolute positions of the assigned advice cells, and the advice cell every exposed instance row is tied to
+        let mut assigned: Vec<(usize, usize)> = vec![];
+        for (c, col) in mp.advice().iter().enumerate() {
+            for (r, v) in col.iter().enumerate() {
+                if matches!(v, CellValue::Assigned(_)) {
+                    assigned.push((c, r));
+                }
+            }
+        }
+        let expose = exposed_cells(&mp);
         let mut cells: Vec<(usize, usize)> = log.iter().map(|(_, c, r)| (*c, *r)).collect();
         cells.sort();
         cells.dedup();
         Ok::<_, String>(json!({"op":op,"params":params,"p":pmod,"nin":kinds.len(),"kinds":kinds.iter().map(|c| c.to_string()).collect::<Vec<_>>(),
-            "nexposed":nexposed,"cs":cs,"fixed":fixed,"advice":advice,"instance":inst,"cells":cells}))
+            "nexposed":nexposed,"assigned":assigned,"expose":expose,"cs":cs,"fixed":fixed,"advice":advice,"instance":inst,"cells":cells}))
     }));
     match r {
         Ok(Ok(j)) => j,
